@@ -7,7 +7,7 @@
    from /repo on every run into Gen/ParamsC13.v (unrepaired tree: fx = false, fb = true); the theorems quantify over both., [step] one machine step, [run_steps fuel] iterates it. *)
 From Coq Require Import ZArith List Bool Arith.
 From EN Require Import Conc.CancelScope Conc.CancelScopeDomain Proofs.C13_core Proofs.C13_inv Proofs.C13_more
-  Proofs.C13_bounded Proofs.C13_leak.
+  Proofs.C13_bounded Proofs.C13_leak Proofs.C13_floor Proofs.C13_sf.
 Import ListNotations.
 
 (* ---------------------------------------------------------------------------------------------------------------
@@ -208,6 +208,38 @@ Theorem uncalled_scope_issued_nothing : forall fx fb p timers turns k fuel j,
   s_called (get_scope st j) = false -> s_calls (get_scope st j) = 0.
 Proof. exact C13_leak.uncalled_scope_issued_nothing. Qed.
 Print Assumptions uncalled_scope_issued_nothing.
+
+(* ---- task.uncancel() at zero.  ALL programs, schedules, both code states, from any state satisfying the accounting
+   equation: one step of the machine leaves g_floor alone unless it runs a live __cancel_task_unless_done handle while
+   task.cancelling() = 0 -- in particular the loops of CancelScope.__exit__ (__uncancel_task and the take-back loop of
+   the repair) never call uncancel() on a zero counter. *)
+Theorem uncancel_at_zero_only_in_delayed_cancel : forall st,
+  t_cnt st = g_ext st + owed_sum (scopes st) + g_leak st + g_floor st ->
+  g_floor (step st) = g_floor st \/
+  (md st = MLoop /\ t_cnt st = 0 /\
+   exists n h rd m, todo st = S n /\ ready st = h :: rd /\ h_canc h = false /\ h_kind h = HDelayedCancel m).
+Proof. exact floor_step. Qed.
+Print Assumptions uncancel_at_zero_only_in_delayed_cancel.
+
+(* ---- SHIELD-FREE programs (no ignore_cancellation, no cancel_shielded_coro_yield; everything else allowed), ALL
+   controller schedules, any number of steps, both code states: uncancel() never finds the counter at zero; hence, with
+   the repair of F1, the FULL no_leftover statement: once no scope is active task.cancelling() is exactly the number of
+   controller cancels that were accepted. *)
+Theorem floor_zero_shield_free : forall fx fb p timers turns k fuel, shield_free p = true ->
+  g_floor (run_steps fuel (init fx fb p timers turns k)) = 0.
+Proof. exact C13_sf.floor_zero_shield_free. Qed.
+Print Assumptions floor_zero_shield_free.
+Theorem no_leftover_repaired_shield_free : forall fb p timers turns k fuel, shield_free p = true ->
+  let st := run_steps fuel (init true fb p timers turns k) in
+  (forall s, In s (scopes st) -> s_host s = false) ->
+  t_cnt st = g_ext st.
+Proof.
+  intros fb p timers turns k fuel Hp st H.
+  pose proof (C13_leak.no_leftover_repaired fb p timers turns k fuel H) as A. fold st in A.
+  unfold st in *. rewrite (C13_sf.floor_zero_shield_free true fb p timers turns k fuel Hp) in A.
+  rewrite A. apply PeanoNat.Nat.add_0_r.
+Qed.
+Print Assumptions no_leftover_repaired_shield_free.
 
 (* ---- no_leftover for the repaired __exit__ (fx = true), enumerated domain: every run finishes, every scope has
    exited, no scope left a request behind, no uncancel() hit zero, hence task.cancelling() = the controller cancels that
